@@ -45,6 +45,8 @@ class Gen:
         self.p_subst = p_subst
         self.max_list = max_list
         self.stats = {}
+        self.full_nested = 0          # C05: nested instances down to this depth also get every member set
+        self.nonempty_lists = False   # C05: lists get at least one element where the schema allows one
         self._subs = {}
         self.idx = get_index()
 
@@ -317,6 +319,8 @@ class Gen:
         cls.NODETYPE); full=True sets every member (optional ones too)"""
         if ct is None:
             ct = self.ctype_of(cls)
+        if 0 < depth <= self.full_nested:
+            full = True
         self.count('with_schema_type' if ct is not None else 'without_schema_type')
         obj = X.construct(cls)
         choice_taken = False
@@ -383,6 +387,8 @@ class Gen:
         def count(default_hi):
             h = min(hi, default_hi)
             lo2 = min(max(lo, 0), h) if h >= lo else lo
+            if self.nonempty_lists and h >= 1:
+                lo2 = max(lo2, 1)
             return r.randint(lo2, max(h, lo2))
 
         item = simple.item if simple is not None and simple.base == 'list' else simple
